@@ -180,6 +180,9 @@ func finishCheck(id string, pc *propCfg, tier string, seed uint64, a *agg, start
 	if os.Getenv("VERIF_MUTANT_OVERLAY") != "" {
 		evDir = filepath.Join(workDir(), "evidence") // sensitivity runs never touch the committed evidence
 	}
+	if d := os.Getenv("VERIF_EVIDENCE_DIR"); d != "" {
+		evDir = d // background sweeps keep away from the committed evidence
+	}
 	os.MkdirAll(evDir, 0755)
 	b, _ := json.MarshalIndent(ev, "", " ")
 	if err := os.WriteFile(filepath.Join(evDir, id+".json"), append(b, '\n'), 0644); err != nil {
